@@ -37,6 +37,23 @@ pub fn select_bases(ctx: &Ctx, prop: &str) -> Vec<Base> {
             }
         }
     }
+    // deep chains: 4, 5 and 8 levels (every link of the chain of signed public keys must be checked)
+    let deep: Vec<(Hid, Vec<Param>)> = if th {
+        let mut d = vec![];
+        for (i, h) in ALL_HASHES.iter().enumerate() {
+            let ws = [8u32, 4, 2, 8];
+            d.push((*h, (0..4).map(|k| p(ws[(i + k) % 4], 2)).collect()));
+            d.push((*h, (0..5).map(|k| p(ws[(i + k + 1) % 4].max(4), 2)).collect()));
+            d.push((*h, (0..8).map(|_| p(8, 2)).collect()));
+        }
+        d
+    } else {
+        vec![(Hid::S32, (0..4).map(|_| p(4, 2)).collect()), (Hid::S16, vec![p(8, 2), p(4, 2), p(4, 2), p(8, 2), p(4, 2)]), (Hid::S24, (0..8).map(|_| p(8, 2)).collect()), (Hid::K16, (0..6).map(|_| p(8, 2)).collect())]
+    };
+    for (h, params) in deep {
+        let total: u64 = 1u64 << (2 * params.len());
+        specs.push((h, params, total / 2 + 1, msgs[1].clone()));
+    }
     let mut bases: Vec<Base> = specs
         .par_iter()
         .filter_map(|(h, params, c, m)| match make_base(ctx, *h, params, *c, m.clone()) {
@@ -126,6 +143,7 @@ fn sample_ops(ctx: &Ctx, b: &Base, ops: &[Op]) {
 }
 
 pub fn run_c02(ctx: &Ctx) -> (&'static str, Map<String, Value>) {
+    start_watchdog("C02");
     let bases = select_bases(ctx, "C02");
     let st = S2Stats::new();
     let stride = if ctx.tier.thorough() { 1 } else { 16 };
@@ -211,6 +229,7 @@ pub fn garbage(ctx: &Ctx, bases: &[Base], st: &S2Stats) {
 }
 
 pub fn run_c06(ctx: &Ctx) -> (&'static str, Map<String, Value>) {
+    start_watchdog("C06");
     let bases = select_bases(ctx, "C06");
     let st = S2Stats::new();
     let stride = if ctx.tier.thorough() { 2 } else { 32 };
@@ -242,6 +261,7 @@ pub fn run_c06(ctx: &Ctx) -> (&'static str, Map<String, Value>) {
         }
     });
     ctx.count("constructor-lengths", ctor_cases);
+    ctx.assume("non-termination is observed by a watchdog: an evaluation that does not return within 30 s is reported as its own violation class (the run is then aborted)");
     ctx.assume("totality is observed as: every call returns Ok or Err under catch_unwind; aborts (stack overflow, allocation failure) would terminate the harness and be reported as an engine crash, none is possible without recursion/allocation in the verifier");
     let mut extra = Map::new();
     extra.insert("constructor_lengths_checked".into(), json!(ctor_cases));
